@@ -112,6 +112,86 @@ fn fresh_thread_verdict(text: &str, doc: &DVal) -> Option<bool> {
     .flatten()
 }
 
+/// (c) threads sharing one rule
+pub fn threads_part(ctx: &Ctx, rep: &mut Report, rounds: usize) {
+        let mut rng = Rng::new(ctx.seed, "C12-threads", 0);
+        let nthreads = 16usize;
+        let clock = Arc::new(AtomicU64::new(0));
+        let inflight = Arc::new(AtomicU64::new(0));
+        let overlapped = Arc::new(AtomicU64::new(0));
+        let max_inflight = Arc::new(AtomicU64::new(0));
+        let mut overlap_hist = vec![0u64; nthreads + 1];
+        for round in 0..rounds {
+            let Some((_, text, docs)) = gen_case(&mut rng, 10) else { continue };
+            let Some(rule) = eng::load_ok(&text) else { continue };
+            let variants: Vec<tau_engine::Rule> = vec![rule.clone(), eng::optimise(&rule, Sw(15)).unwrap_or(rule.clone()), eng::optimise(&rule, Sw(2)).unwrap_or(rule.clone())];
+            for (vi, r) in variants.iter().enumerate() {
+                let base: Vec<Option<bool>> = docs.iter().map(|d| eng::matches(r, &to_yaml_map(d)).ok()).collect();
+                let hist: Vec<Arc<AtomicU64>> = (0..=nthreads).map(|_| Arc::new(AtomicU64::new(0))).collect();
+                let bad: std::sync::Mutex<Option<(usize, usize, Option<bool>)>> = std::sync::Mutex::new(None);
+                std::thread::scope(|s| {
+                    for t in 0..nthreads {
+                        let (docs, base, bad, hist) = (&docs, &base, &bad, &hist);
+                        let (clock, inflight, overlapped, max_inflight) = (clock.clone(), inflight.clone(), overlapped.clone(), max_inflight.clone());
+                        let mut trng = Rng::new(ctx.seed, "C12-t", (round * 64 + t) as u64);
+                        s.spawn(move || {
+                            let mut order: Vec<usize> = (0..docs.len()).collect();
+                            for _ in 0..ctx.size(6, 20) {
+                                trng.shuffle(&mut order);
+                                for &i in &order {
+                                    let rec = to_rec(&docs[i], None, true);
+                                    let _call = clock.fetch_add(1, Ordering::SeqCst);
+                                    let n = inflight.fetch_add(1, Ordering::SeqCst) + 1;
+                                    if n > 1 {
+                                        overlapped.fetch_add(1, Ordering::Relaxed);
+                                    }
+                                    max_inflight.fetch_max(n, Ordering::Relaxed);
+                                    hist[(n as usize).min(hist.len() - 1)].fetch_add(1, Ordering::Relaxed);
+                                    let v = eng::matches(r, &rec).ok();
+                                    inflight.fetch_sub(1, Ordering::SeqCst);
+                                    let _ret = clock.fetch_add(1, Ordering::SeqCst);
+                                    if v != base[i] {
+                                        *bad.lock().unwrap() = Some((t, i, v));
+                                    }
+                                }
+                            }
+                        });
+                    }
+                });
+                for (k, h) in hist.iter().enumerate() {
+                    overlap_hist[k] += h.load(Ordering::Relaxed);
+                }
+                rep.evaluations += (nthreads * docs.len() * ctx.size(6, 20)) as u64;
+                if let Some((t, i, v)) = bad.into_inner().unwrap() {
+                    rep.violation(
+                        "thread-dependent",
+                        &format!("c12-threads:{}", ["unoptimised", "optimised", "shaken"][vi]),
+                        &format!("thread {} got {:?} for a document whose single-threaded verdict is {:?} while 16 threads shared one {} rule", t, v, base[i], ["unoptimised", "optimised", "shaken"][vi]),
+                        json!({"rule": text, "doc": crate::mon::doc_text(&docs[i]), "doc_json": docs[i].to_json_text(), "documents": docs.iter().map(|d| d.to_json_text()).collect::<Vec<_>>()}),
+                    );
+                }
+            }
+        }
+        rep.add("thread_calls_overlapping_another_call", overlapped.load(Ordering::Relaxed));
+        rep.add("thread_max_calls_in_flight", max_inflight.load(Ordering::Relaxed));
+        rep.add("thread_logical_clock_events", clock.load(Ordering::Relaxed));
+        rep.add("thread_distinct_in_flight_levels_seen", overlap_hist.iter().filter(|x| **x > 0).count() as u64);
+        if overlapped.load(Ordering::Relaxed) == 0 {
+            rep.inconclusive.push("no two matches() calls ever overlapped".into());
+        }
+    }
+
+/// only part (c), for the ThreadSanitizer stage
+pub fn threads_only(ctx: &Ctx) -> i32 {
+    let mut rep = Report::new();
+    threads_part(ctx, &mut rep, ctx.size(25, 120));
+    println!("C12-THREADS evaluations={} overlapping_calls={} max_in_flight={} violations={}", rep.evaluations, rep.get("thread_calls_overlapping_another_call"), rep.get("thread_max_calls_in_flight"), rep.violations.len());
+    for v in &rep.violations {
+        println!("VIOLATION-DETAIL {}", v.what);
+    }
+    if rep.violations.is_empty() { 0 } else { 1 }
+}
+
 pub fn run(ctx: &Ctx) -> i32 {
     // (b) cross-process: two children, compared with each other and with this process
     let exe = std::env::current_exe().expect("own path");
@@ -256,74 +336,7 @@ pub fn run(ctx: &Ctx) -> i32 {
         rep
     });
     let mut rep = rep;
-    // (c) threads sharing one rule
-    {
-        let mut rng = Rng::new(ctx.seed, "C12-threads", 0);
-        let nthreads = 16usize;
-        let clock = Arc::new(AtomicU64::new(0));
-        let inflight = Arc::new(AtomicU64::new(0));
-        let overlapped = Arc::new(AtomicU64::new(0));
-        let max_inflight = Arc::new(AtomicU64::new(0));
-        let mut overlap_hist = vec![0u64; nthreads + 1];
-        for round in 0..ctx.size(40, 400) {
-            let Some((_, text, docs)) = gen_case(&mut rng, 10) else { continue };
-            let Some(rule) = eng::load_ok(&text) else { continue };
-            let variants: Vec<tau_engine::Rule> = vec![rule.clone(), eng::optimise(&rule, Sw(15)).unwrap_or(rule.clone()), eng::optimise(&rule, Sw(2)).unwrap_or(rule.clone())];
-            for (vi, r) in variants.iter().enumerate() {
-                let base: Vec<Option<bool>> = docs.iter().map(|d| eng::matches(r, &to_yaml_map(d)).ok()).collect();
-                let hist: Vec<Arc<AtomicU64>> = (0..=nthreads).map(|_| Arc::new(AtomicU64::new(0))).collect();
-                let bad: std::sync::Mutex<Option<(usize, usize, Option<bool>)>> = std::sync::Mutex::new(None);
-                std::thread::scope(|s| {
-                    for t in 0..nthreads {
-                        let (docs, base, bad, hist) = (&docs, &base, &bad, &hist);
-                        let (clock, inflight, overlapped, max_inflight) = (clock.clone(), inflight.clone(), overlapped.clone(), max_inflight.clone());
-                        let mut trng = Rng::new(ctx.seed, "C12-t", (round * 64 + t) as u64);
-                        s.spawn(move || {
-                            let mut order: Vec<usize> = (0..docs.len()).collect();
-                            for _ in 0..ctx.size(6, 20) {
-                                trng.shuffle(&mut order);
-                                for &i in &order {
-                                    let rec = to_rec(&docs[i], None, true);
-                                    let _call = clock.fetch_add(1, Ordering::SeqCst);
-                                    let n = inflight.fetch_add(1, Ordering::SeqCst) + 1;
-                                    if n > 1 {
-                                        overlapped.fetch_add(1, Ordering::Relaxed);
-                                    }
-                                    max_inflight.fetch_max(n, Ordering::Relaxed);
-                                    hist[(n as usize).min(hist.len() - 1)].fetch_add(1, Ordering::Relaxed);
-                                    let v = eng::matches(r, &rec).ok();
-                                    inflight.fetch_sub(1, Ordering::SeqCst);
-                                    let _ret = clock.fetch_add(1, Ordering::SeqCst);
-                                    if v != base[i] {
-                                        *bad.lock().unwrap() = Some((t, i, v));
-                                    }
-                                }
-                            }
-                        });
-                    }
-                });
-                for (k, h) in hist.iter().enumerate() {
-                    overlap_hist[k] += h.load(Ordering::Relaxed);
-                }
-                rep.evaluations += (nthreads * docs.len() * ctx.size(6, 20)) as u64;
-                if let Some((t, i, v)) = bad.into_inner().unwrap() {
-                    rep.violation(
-                        "thread-dependent",
-                        &format!("c12-threads:{}", ["unoptimised", "optimised", "shaken"][vi]),
-                        &format!("thread {} got {:?} for a document whose single-threaded verdict is {:?} while 16 threads shared one {} rule", t, v, base[i], ["unoptimised", "optimised", "shaken"][vi]),
-                        json!({"rule": text, "doc": crate::mon::doc_text(&docs[i]), "doc_json": docs[i].to_json_text(), "documents": docs.iter().map(|d| d.to_json_text()).collect::<Vec<_>>()}),
-                    );
-                }
-            }
-        }
-        rep.add("thread_calls_overlapping_another_call", overlapped.load(Ordering::Relaxed));
-        rep.add("thread_max_calls_in_flight", max_inflight.load(Ordering::Relaxed));
-        rep.add("thread_logical_clock_events", clock.load(Ordering::Relaxed));
-        rep.add("thread_distinct_in_flight_levels_seen", overlap_hist.iter().filter(|x| **x > 0).count() as u64);
-        if overlapped.load(Ordering::Relaxed) == 0 {
-            rep.inconclusive.push("no two matches() calls ever overlapped".into());
-        }
-    }
+    threads_part(ctx, &mut rep, ctx.size(40, 400));
     // (b) collect the children
     let mine = digest_lines(ctx.seed, ctx.size(1500, 20000));
     let mut outs = vec![];
